@@ -78,8 +78,19 @@ def expected(prev, it):
     return list(prev)
 
 
+def odd_ws(s):
+    """white space (`str.isspace()`: tab, newline, \\x1c-\\x1f, U+0085, U+00A0, U+2003, U+3000 ...) other than the ASCII space:
+    outside the operand set of the property; `str.strip()` removes it at the ends of a value, `split(' ')` keeps it inside a name"""
+    return any(c != ' ' and c.isspace() for c in s)
+
+
 def has_odd_ws(it):
-    return any(isinstance(x, str) and any(c in x for c in '\t\n\r\x0b\x0c') for x in it[1:])
+    return any(isinstance(x, str) and odd_ws(x) for x in it[1:])
+
+
+# correspondence only (outside the operand set of the reference semantics): the same beyond ASCII / C's isspace
+UNI_OPS = [['ac', '\xa0a'], ['cn', 'x\u3000y z'], ['cn', '\u2003a b\x85'], ['rc', 'a\xa0b'], ['ac', 'a \x1cb'], ['cn', '\xa0'],
+           ['sa', 'class', 'b\xa0 a\u3000'], ['ac', 'a\xa0b']]
 
 
 class Check(PropCheck):
@@ -93,8 +104,9 @@ class Check(PropCheck):
             'value-less class, upper-case spelling), cloned, copied, unpickled; every view read on a fresh element per prefix. '
             'A case is non-trivial when its history writes the class attribute at least twice through two different paths '
             'or starts from a non-empty class.')
-    assumptions = ['ASCII space is the only separator inside the operands of the reference semantics; tabs/newlines are '
-                   'exercised in the correspondence stream only (the model follows the code: they stay inside one name)',
+    assumptions = ['ASCII space is the only separator inside the operands of the reference semantics; the other white space of '
+                   'str.isspace() (tabs, newlines, \\x1c, U+0085, U+00A0, U+2003, U+3000) is exercised in the correspondence stream '
+                   'only (the model follows the code: str.strip() removes it at the ends of a value, inside it stays in one name)',
                    'the character-level re-parse of the start tag is done by the real parser on the library side and by '
                    'readBack (unescape of &quot;, bare name = no value) on the model side']
 
@@ -127,7 +139,7 @@ class Check(PropCheck):
         # creation variants
         inits = [[['class', 'a']], [['class', '  a   b  ']], [['class', None]], [['CLASS', 'x y']], [['class', 'a a']],
                  [['id', 'i'], ['class', 'k'], ['title', 't']], [['class', '']], [['class', 'a'], ['class', 'b']],
-                 [['class', 'None']], [['class', 'a\tb c']]]
+                 [['class', 'None']], [['class', 'a\tb c']], [['class', '\xa0a b\u3000']], [['class', 'a\xa0b \x1cc']]]
         for attrs in inits:
             for how in ('direct', 'parsed', 'clone', 'copy', 'deepcopy', 'pickle'):
                 c = mk([], attrs=attrs, how=how)
@@ -153,7 +165,7 @@ class Check(PropCheck):
                     it[1] = rng.choice(('CLASS', 'Class'))
             elif r < 0.74:
                 it = rng.choice((['ac', 'a\tb'], ['cn', 'x\ty z'], ['cn', ' \ta b\n'], ['rc', 'a\tb'], ['ac', '\ta'], ['cn', 'a\t b'],
-                                 ['rc', 'b'], ['ac', 'a \tb']))
+                                 ['rc', 'b'], ['ac', 'a \tb']) + tuple(UNI_OPS))
             elif r < 0.84:
                 it = rng.choice((['sa', 'id', 'x'], ['ra', 'id'], ['ms', 'title', 't'], ['md', 'title'], ['st', 'color: red'],
                                  ['st', ''], ['ss', 'display', 'block'], ['ss', 'display', ''], ['sa', 'a b', 'x'],
@@ -163,7 +175,8 @@ class Check(PropCheck):
                                            [['clone']], [['domkeys']], [['get', 'class']], [['attr', 'nokey']]))[0]]
             hist.append(it)
         attrs = rng.choice(([], [], [['class', 'a']], [['class', ' b  a ']], [['id', 'i'], ['class', 'c a'], ['title', 't']],
-                            [['class', None]], [['CLASS', 'A a']], [['style', 'color: red'], ['class', 'z']]))
+                            [['class', None]], [['CLASS', 'A a']], [['style', 'color: red'], ['class', 'z']],
+                            [['class', '\u2003k\xa0l \x85']]))
         how = rng.choice(('direct', 'direct', 'parsed', 'parsed', 'clone', 'copy', 'deepcopy', 'pickle'))
         tag = rng.choice(('div', 'div', 'span', 'input', 'a'))
         cv = rng.choice(COPY_VIEWS)
@@ -191,6 +204,8 @@ class Check(PropCheck):
             fs.append('op:' + it[0] + (':class' if it[0] in ('sa', 'ms', 'ra', 'md') and is_class_key(it[1]) else ''))
             if has_odd_ws(it):
                 fs.append('tab-or-newline-operand')
+                if any(isinstance(x, str) and any(c.isspace() and c not in ' \t\n\r\x0b\x0c' for c in x) for x in it[1:]):
+                    fs.append('non-ascii-or-separator-ws-operand')
             if it[0] in ('cn', 'sa', 'ms') and it[-1] is None:
                 fs.append('none-value')
             if it[0] in ('ac', 'rc', 'cn') and isinstance(it[1], str) and len(words(it[1])) > 1:
@@ -226,7 +241,7 @@ class Check(PropCheck):
         for nm, v in d['attrs']:
             if is_class_key(nm):
                 cur = words(v)
-        odd0 = any(is_class_key(nm) and isinstance(v, str) and any(c in v for c in '\t\n\r') for nm, v in d['attrs'])
+        odd0 = any(is_class_key(nm) and isinstance(v, str) and odd_ws(v) for nm, v in d['attrs'])
         exps.append(None if odd0 else cur)
         for it in hist:
             if exps[-1] is None or has_odd_ws(it):
@@ -302,7 +317,7 @@ class Check(PropCheck):
                 return ('views-disagree' if cl else 'presence', '%s: classList %r but the start tag is %r' % (where, L, html))
         elif cl:
             return ('presence', '%s: no class names but the start tag is %r' % (where, html))
-        odd = any(c in w for w in L for c in '\t\n\r\x0b\x0c')     # outside the property's operand set (ASCII space only)
+        odd = any(odd_ws(w) for w in L)     # outside the property's operand set (ASCII space only)
         rp = AC.reparse(fresh())
         if not odd and list(rp.classList) != L:
             return bad('re-parse of the start tag', list(rp.classList), L)
@@ -321,7 +336,7 @@ class Check(PropCheck):
         if list(e.classList) != L or e.className != joined or e.hasClass('zzz') or e.hasClass('yyy'):
             return ('classList-aliased', '%s: mutating the returned classList changed the element: %r' % (where, list(e.classList)))
         # idempotence laws on this state
-        for nm in [x for x in L if not any(c in x for c in '\t\n\r\x0b\x0c')][:3]:
+        for nm in [x for x in L if not odd_ws(x)][:3]:
             e = fresh()
             e.addClass(nm)
             if list(e.classList) != L:
